@@ -39,13 +39,17 @@ Texts == << [unit |-> <<>>, reps |-> 1],
             [unit |-> <<CA, CR, NL, CB, CR, NL>>, reps |-> 1],  \* CR LF line ends
             [unit |-> <<CA, CR, CB>>, reps |-> 1] >>
 Kinds == {"file", "program"}
-Observers == {"lines", "str", "file", "stdin"}      \* num-lines / matches -full / equals -contents-of / run
+\* num-lines / matches -full / equals -contents-of / run / the lines after the first (a consumer that reads the
+\* head of the text in one pass over its lines and the rest in a second one) / the first line only
+Observers == {"lines", "str", "file", "stdin", "tail", "head"}
 
 RECURSIVE CountNL(_)
 CountNL(s) == IF s = <<>> THEN 0 ELSE (IF Head(s) = NL THEN 1 ELSE 0) + CountNL(Tail(s))
 EndsNL(s) == s # <<>> /\ s[Len(s)] = NL
 \* lines are divided at NL only
 NumLines(tx) == tx.reps * CountNL(tx.unit) + (IF tx.unit # <<>> /\ ~EndsNL(tx.unit) THEN 1 ELSE 0)
+TailLines(tx) == IF NumLines(tx) = 0 THEN 0 ELSE NumLines(tx) - 1
+HeadLines(tx) == IF NumLines(tx) = 0 THEN 0 ELSE 1
 TextLen(tx) == tx.reps * Len(tx.unit)
 
 VARIABLES text, kind, chain, mem,    \* the case (chosen in Init)
